@@ -9,8 +9,8 @@
  * The portable-C library configuration links igzip.c, igzip_base.c, igzip_base_aliases.c,
  * hufftables_c.c, crc_base.c, crc_base_aliases.c, adler32_base.c.  Level 0 never reaches the
  * level 1-3 (icf) or inflate entry points that igzip_base_aliases.c forwards to; under CBMC they
- * stay body-less (unreachable, level is concrete 0 or assumed invalid), for the native replay
- * build they are defined as abort() below so that reaching one would be loud.
+ * are defined by link_stubs.c (vunit) as "must not be reached" so that the native replay links without
+ * the level 1-3 / inflate units and reaching one would be loud in both worlds.
  */
 #ifndef DEFLATE_COMMON_H
 #define DEFLATE_COMMON_H
@@ -36,30 +36,6 @@ wmemset(wchar_t *s, wchar_t c, size_t n)
                 s[i] = c;
         return s;
 }
-#endif
-
-#if defined(REPLAY) && !defined(DFL_NO_LINK_STUBS)
-/* Never reached at level 0 (see header comment).  Only needed to link natively without the
- * level 1-3 / inflate units. */
-#define DFL_UNREACHED(name)                                                                                            \
-        void name(void)                                                                                                \
-        {                                                                                                              \
-                printf("REPLAY: reached level>0 function %s\n", #name);                                                \
-                abort();                                                                                               \
-        }
-DFL_UNREACHED(isal_deflate_icf_body_hash_hist_base)
-DFL_UNREACHED(icf_body_hash1_fillgreedy_lazy)
-DFL_UNREACHED(isal_deflate_icf_finish_hash_hist_base)
-DFL_UNREACHED(isal_deflate_icf_finish_hash_map_base)
-DFL_UNREACHED(isal_update_histogram_base)
-DFL_UNREACHED(encode_deflate_icf_base)
-DFL_UNREACHED(decode_huffman_code_block_stateless_base)
-DFL_UNREACHED(set_long_icf_fg_base)
-DFL_UNREACHED(gen_icf_map_h1_base)
-DFL_UNREACHED(isal_create_hufftables)
-DFL_UNREACHED(isal_create_hufftables_subset)
-DFL_UNREACHED(create_hufftables_icf)
-DFL_UNREACHED(isal_deflate_icf_body)
 #endif
 
 /* ---------------------------------------------------------------- wrapper layouts (from the RFCs) */
